@@ -329,8 +329,14 @@ func execD(r *verifsim.Run, conns []*dConn, sched bool) *dResult {
 				err := handleConn(a, conf, false)
 				a.Close()
 				res.Errs = append(res.Errs, err)
-				// a reconnect takes at least a second (file names have one-second resolution)
-				time.Sleep(time.Duration(1100+r.Draw(3000)) * time.Millisecond)
+				// a reconnect takes at least a second (file names have one-second resolution); a writer that is
+				// held back at the end of its connection may only now create its file, so the next connection
+				// waits that long as well
+				gap := time.Duration(1100+r.Draw(3000)) * time.Millisecond
+				if slowEnd {
+					gap += slowFor
+				}
+				time.Sleep(gap)
 				if sched {
 					verifsim.Yield("reader:between-connections")
 				}
